@@ -50,6 +50,20 @@ def Alternates : List Ev → Prop
 /-- states reachable from a fresh agent by any call history -/
 def Reachable (s : State) : Prop := ∃ tr loc ops, s = after (State.init tr loc) ops
 
+/-! ### the request a transmission stems from (C18) -/
+
+/-- the most recent accepted `send` of a request with id `tid` in a (chronological) trace: its bytes
+    and destination -/
+def origin (tid : Nat) : List (Op × Out) → Option (Bytes × SockAddr)
+  | [] => none
+  | (op, o) :: rest =>
+    match origin tid rest with
+    | some x => some x
+    | none =>
+      match op, o with
+      | .sendReq t b _ to _, .transmit _ _ => if t = tid then some (b, to) else none
+      | _, _ => none
+
 /-! ### invariants of reachable states -/
 
 /-- transaction ids are unique keys -/
